@@ -439,3 +439,48 @@ def r10(rr, repo):
     _, init = repo.find(f'{BR}::OTelLineageExporter.__init__')
     dflt = [n for n in walk_scope(init) if isinstance(n, ast.Assign) and U(n.targets[0]) == 'self._export_raw_data']
     rr.floor('initialisations of the raw-data switch', len(dflt), 1, mod, init)
+
+
+@rule('C16.R11', "a histogram reaches the backend with the lists the exporter built: between the heartbeat facet and the event nothing changes the LENGTH of a list-valued field - bounds and counts are two separate "
+                 "lists of n and n + 1 entries, any helper that shortens lists one by one (a cap on list length, de-duplication, dropping zeros) breaks 'one more count than bounds' for large histograms")
+def r11(rr, repo):
+    lm, em = repo.find(f'{LINF}::OpenFilterLineage._emit_event')
+    _, mk = repo.find(f'{LINF}::create_openfilter_facet_with_fields')
+    builds = [c for c in q.calls_in(em) if U(c.func) == 'create_openfilter_facet_with_fields' and (c.args or q.kwarg(c, 'data') is not None)]
+    rr.floor('facet constructions in _emit_event', len(builds), 1, lm, em)
+    SAFE = {'dict', 'copy', 'deepcopy', 'copy.copy', 'copy.deepcopy', 'flatten_dict', 'normalize_facet_keys', 'hide_uri_users_and_pwds_deep'}
+    def length_changing(fn):
+        # slices with a bound, filters in comprehensions, set() / dict.fromkeys() of a value list, del of elements
+        out = []
+        for n in ast.walk(fn):
+            if isinstance(n, ast.Subscript) and isinstance(n.slice, ast.Slice) and (n.slice.upper is not None or n.slice.lower is not None or n.slice.step is not None) and not (isinstance(n.value, ast.Name) and n.value.id in ('k', 'key', 'name')):
+                out.append(n)
+            if isinstance(n, (ast.ListComp, ast.GeneratorExp)) and any(g.ifs for g in n.generators):
+                out.append(n)
+            if isinstance(n, ast.Call) and U(n.func) in ('set', 'frozenset', 'sorted', 'dict.fromkeys') and n.args:
+                out.append(n)
+        return out
+    for b in builds:
+        src = b.args[0] if b.args else q.kwarg(b, 'data')
+        exprs = [src]
+        if isinstance(src, ast.Name):
+            exprs = [n.value for n in walk_scope(em) if isinstance(n, ast.Assign) and U(n.targets[0]) == src.id]
+        for e in exprs:
+            for c in [c for c in ast.walk(e) if isinstance(c, ast.Call)]:
+                nm = U(c.func)
+                if nm in SAFE or nm.startswith('self.') and nm.endswith('.get'):
+                    continue
+                try:
+                    _, helper = repo.find(f'{LINF}::{nm}')
+                except Unresolved:
+                    rr.unresolved('a helper applied to the facet data on its way into the event could not be looked at', lm, c, witness=nm, key=f'facet-lists-untouched|{nm}')
+                    continue
+                bad = length_changing(helper)
+                rr.ob('no helper between the heartbeat facet and the event changes the length of a list-valued field', not bad, lm, c,
+                      witness=f'{nm}: {U(bad[0])[:60]}' if bad else nm, key=f'facet-lists-untouched|{nm}')
+    # the facet builder itself maps list elements one to one
+    comps = [n for n in ast.walk(mk) if isinstance(n, ast.ListComp) and any(isinstance(p_, ast.Assign) and p_.value is n for p_ in ast.walk(mk))]
+    rr.floor('element-wise conversions of list fields in the facet builder', len(comps), 2, lm, mk)
+    for n in comps:
+        one = len(n.generators) == 1 and not n.generators[0].ifs
+        rr.ob('the facet builder converts list fields element by element (same length)', one, lm, n, witness=U(n)[:80], key='facet-lists-elementwise')
